@@ -153,7 +153,7 @@ def run_c17(case, eng, res):
                 path.twin("C17 violation reachable")
                 res["violations"].append({"what": "C17 %s" % viol[0], "case": case,
                                           "replay": {"kind": "bridge_seq", "ports": "auto:%d" % len(ports), "model_port_list": list(ports), "trace": trace, "oracle": "C17"}})
-        if n <= 3 or n % 257 == 0 or (viol and len(res["witnesses"]) < 6):
+        if n <= 3 or (n % 257 == 0 and len(res["witnesses"]) < 40) or (viol and len(res["witnesses"]) < 6):
             res["witnesses"].append({"replay": {"kind": "bridge_seq", "ports": "auto:%d" % len(ports), "model_port_list": list(ports), "trace": trace, "oracle": "C17"},
                                      "expected": {"violates": bool(viol)}})
         if len(res["samples"]) < 2:
@@ -342,7 +342,7 @@ def run_c18(case, eng, res):
             seen.add(viol[0])
             res["violations"].append({"what": "C18 %s" % viol[0], "case": case,
                                       "replay": {"kind": "api_life", "api": api_type, "trace": trace, "oracle": "C18"}})
-        if n <= 3 or n % 211 == 0:
+        if n <= 3 or (n % 211 == 0 and len(res["witnesses"]) < 40):  # real-server replays cost ~0.3 s each: at most 40 per case
             res["witnesses"].append({"replay": {"kind": "api_life", "api": api_type, "trace": trace, "oracle": "C18"},
                                      "expected": {"violates": bool(viol)}})
         if len(res["samples"]) < 2:
